@@ -55,38 +55,45 @@ theorem UNBOLD_IDEM_false :
 /-! ### list spacing -/
 
 /-- ITEM_TIGHT: in a list rendered tight, an item emits no separator at all. -/
-theorem ITEM_TIGHT (cfg : RCfg) (st : RState) (bs : List Block) (h : st.listTight = true) :
+theorem ITEM_TIGHT (cfg : RCfg) (st : RState) (bs : List Block) (h : st.listTight = true) (hne : bs ≠ []) :
     (renderBlock cfg st (.item bs)).1 = (renderBlocks cfg st bs).1 := by
   cases st with
   | mk pfx snd suppress skipBlank listTight acc =>
     simp only at h
     subst h
-    simp [renderBlock]
+    simp [renderBlock, hne]
 
 /-- ITEM_LOOSE: in a list rendered loose, an item that is not the first thing after a separator
 already emitted (`suppress = false`) starts with exactly one separator line: the container's
 continuation prefix stripped (empty at top level, `>` in a quote) and a newline. -/
 theorem ITEM_LOOSE (cfg : RCfg) (st : RState) (bs : List Block) (h : st.listTight = false)
-    (hs : st.suppress = false) :
+    (hs : st.suppress = false) (hne : bs ≠ []) :
     (renderBlock cfg st (.item bs)).1 =
       rstrip st.snd ++ '\n' :: (renderBlocks cfg { st with suppress := false } bs).1 := by
-  simp [renderBlock, h, hs]
+  simp [renderBlock, h, hs, hne]
+
+/-- ITEM_EMPTY: an item with nothing in it is written as its marker (the first-line prefix without its
+trailing space) on a line of its own, after the same separator as any other item. -/
+theorem ITEM_EMPTY (cfg : RCfg) (st : RState) :
+    (renderBlock cfg st (.item [])).1 =
+      (if st.listTight then [] else if st.suppress then [] else rstrip st.snd ++ ['\n']) ++ rstrip st.pfx ++ ['\n'] := by
+  simp [renderBlock]
 
 /-- … and right after a heading / blank line / definition (which already separated), none. -/
 theorem ITEM_LOOSE_suppressed (cfg : RCfg) (st : RState) (bs : List Block) (h : st.listTight = false)
-    (hs : st.suppress = true) :
+    (hs : st.suppress = true) (hne : bs ≠ []) :
     (renderBlock cfg st (.item bs)).1 = (renderBlocks cfg { st with suppress := false } bs).1 := by
-  simp [renderBlock, h, hs]
+  simp [renderBlock, h, hs, hne]
 
 /-- ITEM_FIRST_IN_CONTAINER: in a loose list, an item that starts on the first line of its container
 (the first-line prefix — an enclosing item's marker, a footnote label — has not been used yet) is
 written without a separator line in front of it, whatever the suppress flag said. -/
 theorem ITEM_FIRST_IN_CONTAINER (cfg : RCfg) (st : RState) (o : Bool) (s : Nat) (b : Str) (i : Nat)
-    (bs : List Block) (rest : List Block) (h : st.listTight = false) (hp : st.pfx ≠ st.snd) :
+    (bs : List Block) (rest : List Block) (h : st.listTight = false) (hp : st.pfx ≠ st.snd) (hne : bs ≠ []) :
     (renderBlocks cfg { st with pfx := st.pfx ++ (itemPrefix o s i b).1, snd := st.snd ++ (itemPrefix o s i b).2,
                                 suppress := false } bs).1 <+: (renderItems cfg st o s b i (.item bs :: rest)).1 := by
   have hc : (¬st.pfx = st.snd ∨ st.suppress = true) := Or.inl hp
-  simp [renderItems, renderBlock, h, hp, hc]
+  simp [renderItems, renderBlock, h, hp, hc, hne]
 
 /-- MODE: which tightness a list's items are rendered with. -/
 theorem MODE_loose (cfg : RCfg) (st : RState) (o : Bool) (s : Nat) (b : Str) (t : Bool) (items : List Block)
